@@ -66,6 +66,20 @@ func (g *Gen) buildQueries(unit string, getVals, valNames []string) []*Query {
 		head.WriteString("(assert " + d + ")\n")
 	}
 	prelude := head.String()
+	// array constants indexed by the index sort (for the instantiation pass)
+	idxArrayAtoms = map[string]bool{}
+	for _, d := range g.decls {
+		pre := "(declare-const "
+		if strings.HasPrefix(d, pre) {
+			rest := d[len(pre):]
+			if i := strings.Index(rest, " "); i > 0 {
+				name, srt := rest[:i], rest[i+1:]
+				if strings.HasPrefix(srt, "(Array "+g.IS()+" ") && !isHeapArrayName(name) {
+					idxArrayAtoms[name] = true
+				}
+			}
+		}
+	}
 	var ctx strings.Builder
 	for _, it := range g.items {
 		if it.Oblig {
